@@ -1,12 +1,16 @@
 #!/bin/bash
-# run.sh quick|thorough <seed>   |   run.sh replay <file>
-# Concurrency engine (C19): copies /repo's working tree, rewrites container/atomic/builtInFunctions,
+# run.sh quick|thorough <seed> [<workload mode> <property>]   |   run.sh replay <file>
+# Concurrency engine: copies /repo's working tree, rewrites container/atomic/builtInFunctions/parsers,
 # builds the harness with and without -race, runs seeded batches in single-P worker processes.
+# Default: workload mode "all" for property C19. "parse C10" is the shared-parser workload that the
+# check of C10 runs after its world simulation.
 set -u
 export GOFLAGS=-mod=mod GOPROXY=off GOSUMDB=off GOTOOLCHAIN=local
 VERIF=$(dirname "$(dirname "$(readlink -f "$0")")")
 MODE=${1:-quick}
 SEED=${2:-1}
+KMODE=${3:-all}
+CPROP=${4:-C19}
 START=$(date +%s.%N)
 SCRATCH=$(mktemp -d "${TMPDIR:-/tmp}/verif-conc-XXXXXX") || { echo "cannot create scratch dir" >&2; exit 2; }
 trap 'rm -rf "$SCRATCH"' EXIT
@@ -22,8 +26,9 @@ if [ "$MODE" = replay ]; then
   if grep -q '"race": *true' "$FILE"; then BIN="$SCRATCH/concrun-race"; else BIN="$SCRATCH/concrun"; fi
   GOMAXPROCS=1 GORACE="halt_on_error=1 exitcode=66" "$BIN" -replay "$FILE"
   rc=$?
-  if [ $rc -eq 66 ]; then echo "race reproduced"; echo "VIOLATION property=C19 replay=$FILE"; exit 1; fi
-  if [ $rc -eq 3 ]; then echo "deadlock reproduced"; echo "VIOLATION property=C19 replay=$FILE"; exit 1; fi
+  RPROP=$(grep -o '"property": *"C[0-9]*"' "$FILE" | head -1 | grep -o 'C[0-9]*'); RPROP=${RPROP:-C19}
+  if [ $rc -eq 66 ]; then echo "race reproduced"; echo "VIOLATION property=$RPROP replay=$FILE"; exit 1; fi
+  if [ $rc -eq 3 ]; then echo "deadlock reproduced"; echo "VIOLATION property=$RPROP replay=$FILE"; exit 1; fi
   exit $rc
 fi
 
@@ -32,4 +37,5 @@ case "$MODE" in
   thorough) NPLAIN=4000000; NRACE=1200000;;
   *) echo "unknown tier $MODE" >&2; exit 2;;
 esac
-VERIF=$VERIF python3 $VERIF/conc/drive.py "$SCRATCH" "$MODE" "$SEED" "$NPLAIN" "$NRACE" "$SITES" "$START"
+if [ "$KMODE" = parse ]; then NPLAIN=$((NPLAIN / 4)); NRACE=$((NRACE / 4)); fi
+CONC_MODE=$KMODE CONC_PROP=$CPROP VERIF=$VERIF python3 $VERIF/conc/drive.py "$SCRATCH" "$MODE" "$SEED" "$NPLAIN" "$NRACE" "$SITES" "$START"
